@@ -18,9 +18,9 @@ theorem lsLoop_spec (base : X) (d : D) (rNorm : Option Rat) (n : Nat) :
       let ls := lsLoop wd o base d rNorm i n alpha s
       ls.st.nEval ≤ s.nEval + n ∧ s.nEval ≤ ls.st.nEval ∧ ls.st.useR = s.useR ∧
       (ls.accepted = true → ls.st.newNorm = wd.norm ls.st.loaded ∧ ls.st.x = ls.st.loaded) ∧
-      (ls.accepted = false → i + n ≤ ls.iterBt + 1) := by
+      (ls.accepted = false → ((i + n : Nat) : Int) ≤ ls.iterBt + 1) := by
   induction n with
-  | zero => intro i alpha s; simp [lsLoop]; omega
+  | zero => intro i alpha s; simp [lsLoop]
   | succ n ih =>
     intro i alpha s
     simp only [lsLoop]
@@ -48,8 +48,7 @@ structure PassOK (i : Nat) (s : St X) (r : Step X) : Prop where
   evalsN : ∀ s', r = .next s' → s'.nEval ≤ s.nEval + (o.btMaxiter + 1)
   rep : ∀ out s', r = .done out s' →
     (∃ k, out = .ret .converged .solved k) ∨
-    (∃ m k, out = .ret .error m k ∧ (m = .timeLimit ∨ m = .singular ∨ m = .lineSearch)) ∨
-    (out = .crash ∧ o.btMaxiter = 0 ∧ o.zeroSafe = false)
+    (∃ m k, out = .ret .error m k ∧ (m = .timeLimit ∨ m = .singular ∨ m = .lineSearch))
 
 theorem pass_ok {i : Nat} {s : St X} (g : Good wd o i s) : PassOK wd o i s (pass wd o i s) := by
   obtain ⟨fx, fl, fu, fe, fe', fn⟩ := fresh_spec wd o g
@@ -57,7 +56,7 @@ theorem pass_ok {i : Nat} {s : St X} (g : Good wd o i s) : PassOK wd o i s (pass
   by_cases ht : wd.timeUp i = true
   · simp only [ht, if_true]
     exact ⟨fun _ _ _ h => (by cases h), fun _ h => (by cases h), fun _ _ h => (by cases h; omega), fun _ h => (by cases h),
-      fun _ _ h => (by cases h; exact Or.inr (Or.inl ⟨_, _, rfl, Or.inl rfl⟩))⟩
+      fun _ _ h => (by cases h; exact Or.inr ⟨_, _, rfl, Or.inl rfl⟩)⟩
   · simp only [ht]
     by_cases hlt : ltO (fresh wd s).2 (some o.tol) = true
     · simp only [hlt, if_true]
@@ -71,27 +70,22 @@ theorem pass_ok {i : Nat} {s : St X} (g : Good wd o i s) : PassOK wd o i s (pass
       | none =>
         simp only
         exact ⟨fun _ _ _ h => (by cases h), fun _ h => (by cases h), fun _ _ h => (by cases h; omega), fun _ h => (by cases h),
-          fun _ _ h => (by cases h; exact Or.inr (Or.inl ⟨_, _, rfl, Or.inr (Or.inl rfl)⟩))⟩
+          fun _ _ h => (by cases h; exact Or.inr ⟨_, _, rfl, Or.inr (Or.inl rfl)⟩)⟩
       | some d =>
         simp only
         by_cases hbt : (o.bt && decide (i ≥ o.btStartIter)) = true
         · simp only [hbt, if_true]
           unfold btPass
-          by_cases hb0 : (decide (o.btMaxiter = 0) && !o.zeroSafe) = true
-          · simp only [hb0, if_true]
-            have hb0' : o.btMaxiter = 0 ∧ o.zeroSafe = false := by simpa using hb0
-            exact ⟨fun _ _ _ h => (by cases h), fun _ h => (by cases h), fun _ _ h => (by cases h; simp only; omega),
-              fun _ h => (by cases h), fun _ _ h => (by cases h; exact Or.inr (Or.inr ⟨rfl, hb0'.1, hb0'.2⟩))⟩
-          · simp only [hb0]
-            obtain ⟨a, _, hu, hacc, hnot⟩ := lsLoop_spec wd o (fresh wd s).1.x d (fresh wd s).2 o.btMaxiter 0 1
+          simp only
+          · obtain ⟨a, _, hu, hacc, hnot⟩ := lsLoop_spec wd o (fresh wd s).1.x d (fresh wd s).2 o.btMaxiter 0 1
               { (fresh wd s).1 with useR := true }
             simp only at a hu
             by_cases hex : (lsLoop wd o (fresh wd s).1.x d (fresh wd s).2 0 o.btMaxiter 1
-                { (fresh wd s).1 with useR := true }).iterBt + 1 ≥ o.btMaxiter
+                { (fresh wd s).1 with useR := true }).iterBt + 1 ≥ (o.btMaxiter : Int)
             · simp only [hex, if_true]
               exact ⟨fun _ _ _ h => (by cases h), fun _ h => (by cases h), fun _ _ h => (by cases h; omega),
                 fun _ h => (by cases h),
-                fun _ _ h => (by cases h; exact Or.inr (Or.inl ⟨_, _, rfl, Or.inr (Or.inr rfl)⟩))⟩
+                fun _ _ h => (by cases h; exact Or.inr ⟨_, _, rfl, Or.inr (Or.inr rfl)⟩)⟩
             · simp only [hex, if_false]
               have hacc' : (lsLoop wd o (fresh wd s).1.x d (fresh wd s).2 0 o.btMaxiter 1
                   { (fresh wd s).1 with useR := true }).accepted = true := by
@@ -129,7 +123,7 @@ theorem outer_converged (n : Nat) :
   | zero =>
     intro i s _ msg k h
     simp only [outer] at h
-    split at h <;> cases h
+    cases h
   | succ n ih =>
     intro i s g msg k h
     have pk := pass_ok wd o g
@@ -171,17 +165,12 @@ def Reported (out : Outcome) : Prop :=
   (∃ m k, out = .ret .error m k ∧ (m = .timeLimit ∨ m = .singular ∨ m = .lineSearch ∨ m = .maxIter))
 
 theorem outer_reported (n : Nat) :
-    ∀ (i : Nat) (s : St X), Good wd o i s → Reported (outer wd o i n s).1 ∨
-      ((outer wd o i n s).1 = .crash ∧ (o.maxiter = 0 ∨ o.btMaxiter = 0) ∧ o.zeroSafe = false) := by
+    ∀ (i : Nat) (s : St X), Good wd o i s → Reported (outer wd o i n s).1 := by
   induction n with
   | zero =>
     intro i s _
     simp only [outer]
-    split
-    · rename_i h
-      have h' : o.maxiter = 0 ∧ o.zeroSafe = false := by simpa using h
-      exact Or.inr ⟨rfl, Or.inl h'.1, h'.2⟩
-    · exact Or.inl (Or.inr ⟨_, _, rfl, by simp⟩)
+    exact Or.inr ⟨_, _, rfl, by simp⟩
   | succ n ih =>
     intro i s g
     have pk := pass_ok wd o g
@@ -190,11 +179,10 @@ theorem outer_reported (n : Nat) :
     | done out s' =>
       rw [hp] at pk
       simp only
-      rcases pk.rep out s' rfl with h | ⟨m, k, h, hm⟩ | ⟨h, hb, hz⟩
-      · exact Or.inl (Or.inl h)
-      · refine Or.inl (Or.inr ⟨m, k, h, ?_⟩)
+      rcases pk.rep out s' rfl with h | ⟨m, k, h, hm⟩
+      · exact Or.inl h
+      · refine Or.inr ⟨m, k, h, ?_⟩
         rcases hm with e | e | e <;> simp [e]
-      · exact Or.inr ⟨h, Or.inr hb, hz⟩
     | next s' =>
       rw [hp] at pk
       exact ih (i + 1) s' (pk.next s' rfl)
